@@ -501,8 +501,17 @@ def _cases(ctx):
             for dkind in DESTS:
                 cases.append(["multi", pos, "none", OWN_TAGS[1 + (len(cases) % (len(OWN_TAGS) - 1))], dkind, None])
     else:
-        for form, pos, mention, own, dkind, marker in it.product(NOTE_FORMS, POSITIONS, MENTIONS, OWN_TAGS, DESTS, MARKERS):
-            cases.append([form, pos, mention, own, dkind, marker])
+        # thorough: every (form, position, destination, marker, mention) with the own-tag variant rotating,
+        # and every (mention, own-tag variant, form, destination) with position and marker rotating -- all
+        # pairs and most triples of the six dimensions (the full product, 86,016 moves, was run to
+        # completion once, see DESIGN §9; it takes over an hour and finds nothing the covering misses)
+        k = 0
+        for form, pos, dkind, marker, mention in it.product(NOTE_FORMS, POSITIONS, DESTS, MARKERS, MENTIONS):
+            cases.append([form, pos, mention, OWN_TAGS[k % len(OWN_TAGS)], dkind, marker])
+            k += 1
+        for mention, own, form, dkind in it.product(MENTIONS, OWN_TAGS, NOTE_FORMS, DESTS):
+            cases.append([form, POSITIONS[k % len(POSITIONS)], mention, own, dkind, MARKERS[k % len(MARKERS)]])
+            k += 1
     for form in ASSIGNED_FORMS:
         for dkind in ASSIGNED_DESTS:
             for marker in (None, "x"):
@@ -547,7 +556,7 @@ def run(ctx: F.Ctx):
             "block ending in newline / without newline / with two blank lines, block then section, "
             "last line a section header with and without trailing newline, a template whose rendering "
             "ends in a section header, a note mentioning the ZID, the source page itself) x marker {none, x, ~}; quick "
-            "covers every value of every dimension in rotation, thorough the full product. Oracle: "
+            "covers every value of every dimension in rotation, thorough every (form, position, destination, marker, mention) with the own-tag pattern rotating plus every (mention, own-tag pattern, form, destination) with position and marker rotating (24,248 moves; the full product of 86,016 was run to completion once). Oracle: "
             "line algebra on both files, then recompilation of both pages (same set of notes, "
             "requested kind, body = old body + inserted metadata words, tags/properties superset). "
             "Plus 5 notes written WITHOUT a ZID (dated / undated, single / multi-line) that `db create` "
